@@ -6,7 +6,7 @@ META = {
     "technique": "Coq proof: symbolic conversion of the vectorised column/diagonal round to the index-wise G schedule, case analysis on the buffer position for padding and counters, induction over blocks; KAT-anchored spec; differential correspondence impl = model = spec",
     "level_text": "Machine-checked, for the model of hashes/blake/src/lib.rs: C04_blake{224,256}_eq_spec (every message with fewer than 2^64 bits) and C04_blake{384,512}_eq_spec (fewer than 2^128 bits): model digest = digest of the index-wise BLAKE specification; C04_updates_eq_spec: the same for every split over update calls. Built from C04_round_eq_spec (vectorised column/diagonal round = G_0..G_7 with sigma, any word operations), C04_compress_eq_spec_32/64 (put_block = compression function), C04_schedule_eq_spec (for every compressor the hasher feeds exactly the specified padded blocks and counters, t = 0 for a padding-only block, 55/56 and 111/112 boundary by case analysis). Props/C17_blake.v: the two-word bit counter is exact across the 2^32 / 2^64 carry and no overflow check can fire below the format limit. The spec reproduces 12 published vectors (C04_kats). Implementation = model = spec is checked on generated cases (one-shot, multi-update, hook-entered states).",
     "level_note": "Trusted: Coq kernel+VM; spec transcription (constants, sigma, IVs validated by the published vectors); hand-written model tied on generated cases; harness. No axioms.",
-    "rule": "cases = (variant, message) one-shot digests over every length 0..3*block+1 and sparse longer ones, two-call updates, and hook-entered states (chaining value, counter, buffered, tail); distinct = distinct canonical case; non-trivial = non-empty message or hook state; implementation digest compared with model and with spec inside coqc; the LENGTH of every digest returned is checked in the harness against the variant's size (28/32/48/64 bytes: the Coq runner cuts the digest literal to that size, so a changed output-size type would otherwise be invisible) and every call into the implementation runs under catch_unwind: a wrong length or a panic on an input inside the format limits is a direct failure with the case as failing input; cases from the reset streams carry the digest of the reset object in both the Coq literal and the replay JSON; the real_stream classes of C17 (h_blake --real / --big-update) are described there",
+    "rule": "cases = (variant, message) one-shot digests over every length 0..3*block+1 and sparse longer ones, two-call updates, ONE update call with a long message (full debug stream: 8 KiB and 16 KiB + 1 per variant, 64 KiB + 1 instead of 16 KiB + 1 for one variant rotating with the seed; reduced release stream: 8 KiB per variant; not in the tiny streams; contents the computable sequence LP (byte i = x_i >> 8, x_(i+1) = 5 x_i + 12345 mod 2^16; defined in the header of the generated case files, so the case carries no 64 KiB literal); evidence: digests_of_one_long_update), and hook-entered states (chaining value, counter, buffered, tail); distinct = distinct canonical case; non-trivial = non-empty message or hook state; implementation digest compared with model and with spec inside coqc; the LENGTH of every digest returned is checked in the harness against the variant's size (28/32/48/64 bytes: the Coq runner cuts the digest literal to that size, so a changed output-size type would otherwise be invisible) and every call into the implementation runs under catch_unwind: a wrong length or a panic on an input inside the format limits is a direct failure with the case as failing input; cases from the reset streams carry the digest of the reset object in both the Coq literal and the replay JSON; the real_stream classes of C17 (h_blake --real / --big-update) are described there",
     "assumptions": ["little-endian host", "ppv-lite86 vector operations have their lane meaning (C12/C13)"],
 }
 
